@@ -118,11 +118,11 @@ Print Assumptions C08_unauthorised_never_followed.
 Print Assumptions C08_events_below.
 
 (* ... and for the pipeline with the component models plugged in (model/PipelineInst.v) unconditionally *)
-Theorem C08_fuel_not_observable_inst : forall now truths tc tcc cmds f1 f2 d,
+Theorem C08_fuel_not_observable_inst : forall now truths tc tcc pems cmds f1 f2 d,
   (ld_depth d < f1)%nat -> (ld_depth d < f2)%nat ->
   forall w path layout_env keys step_name params inter,
-    verify_inst now truths tc tcc cmds f1 w path d layout_env keys step_name params inter =
-    verify_inst now truths tc tcc cmds f2 w path d layout_env keys step_name params inter.
+    verify_inst now truths tc tcc pems cmds f1 w path d layout_env keys step_name params inter =
+    verify_inst now truths tc tcc pems cmds f2 w path d layout_env keys step_name params inter.
 Proof. exact verify_inst_fuel_stable. Qed.
 Print Assumptions C08_fuel_not_observable.
 Print Assumptions C08_fuel_not_observable_inst.
@@ -135,8 +135,8 @@ Print Assumptions C08_fuel_not_observable_inst.
 From IT Require Import spec.ThresholdSpec proofs.PipelineThreshold model.Subst.
 
 Theorem C08_entered_sublayout_is_authorised :
-  forall now truths tc tcc cmds fuel w path d layout_env keys step_name params inter x w' tr sname kid,
-    verify_inst now truths tc tcc cmds (S fuel) w path d layout_env keys step_name params inter = (x, w', tr) ->
+  forall now truths tc tcc pems cmds fuel w path d layout_env keys step_name params inter x w' tr sname kid,
+    verify_inst now truths tc tcc pems cmds (S fuel) w path d layout_env keys step_name params inter = (x, w', tr) ->
     In (EvEnterSublayout path sname kid) tr ->
     exists layout0 layout st e,
       e_payload layout_env = PLayout layout0 /\ substitute layout0 params = Ok layout /\
@@ -145,7 +145,7 @@ Theorem C08_entered_sublayout_is_authorised :
       (authorised_key (vsig_tbl truths) layout st kid e \/
        authorised_cert (vsig_tbl truths) (tbl_get_cert tc) (cc_tbl tcc) st kid e).
 Proof.
-  intros now truths tc tcc cmds fuel w path d layout_env keys step_name params inter x w' tr sname kid H Hin.
+  intros now truths tc tcc pems cmds fuel w path d layout_env keys step_name params inter x w' tr sname kid H Hin.
   unfold verify_inst in H.
   destruct (C08_unauthorised_never_followed _ _ _ _ _ _ _ _ _ _ _ _ _ _ _ _ _ _ _ _ _ _ _ _ _ _ H Hin)
     as [l0 [l [loaded [verified [links [e [Hp [Hs [Hl [Ht [H1 [H2 H3]]]]]]]]]]]].
